@@ -204,6 +204,14 @@ def jobs(tier, seed):
                     tuples = rnd.sample(list(itertools.product(SMALL, repeat=3)), 300)
             call = prefix + "(" + ", ".join("{%d}" % i for i in range(ar)) + ")"
             out.append((call, name, tuples, is_mut))
+            # the same object passed in two argument positions
+            if ar == 2:
+                out.append((prefix + "({0}, {0})", name, [(a,) for a in POOL], is_mut))
+            elif ar == 3:
+                pairs = list(itertools.product(SMALL, repeat=2))
+                out.append((prefix + "({0}, {0}, {1})", name, pairs, is_mut))
+                out.append((prefix + "({0}, {1}, {0})", name, pairs, is_mut))
+                out.append((prefix + "({0}, {1}, {1})", name, pairs, is_mut))
     for form, ar in OPFORMS:
         pool = POOL if ar <= 2 else SMALL
         if ar == 2 and tier == "quick":
